@@ -12,7 +12,7 @@ use crate::eng::{self, Sw};
 use crate::gen::{self, GenCfg};
 use crate::mon;
 use crate::prng::Rng;
-use crate::reps::{to_rec, FindLog};
+use crate::reps::{to_getobj, to_rec, FindLog};
 use crate::run::{finish, par_shards, Ctx, Meta, Report};
 
 /// keys written at the top level of the identifiers (plus cast arguments of the condition), and
@@ -87,6 +87,52 @@ pub fn nested_keys_by_location(r: &RuleAst) -> std::collections::BTreeMap<String
             Ident::Map(es) => walk(es, "", &mut out),
             Ident::Seq(s) => s.iter().for_each(|es| walk(es, "", &mut out)),
         }
+    }
+    out
+}
+
+/// single lookup steps the provided `Object::find` may make: location (path of names, no
+/// indices) -> the names that may be asked for there. A key `a.b[1].c` written at location L
+/// allows `a` at L, `b` at L.a and `c` at L.a.b; a nested block sits at the location its key
+/// addresses.
+pub fn allowed_gets(r: &RuleAst) -> std::collections::BTreeMap<String, BTreeSet<String>> {
+    type Out = std::collections::BTreeMap<String, BTreeSet<String>>;
+    fn add_key(at: &str, field: &str, out: &mut Out) -> String {
+        let mut loc = at.to_string();
+        for seg in field.split('.') {
+            let name = if seg.ends_with(']') && seg.contains('[') { seg.split('[').next().unwrap_or(seg) } else { seg };
+            out.entry(loc.clone()).or_default().insert(name.to_string());
+            loc = if loc.is_empty() { name.to_string() } else { format!("{}.{}", loc, name) };
+        }
+        loc
+    }
+    fn walk(es: &Entries, at: &str, out: &mut Out) {
+        for (k, v) in es {
+            let here = add_key(at, &k.field, out);
+            match v {
+                RVal::Map(inner) => walk(inner, &here, out),
+                RVal::List(ms) => {
+                    for m in ms {
+                        if let RVal::Map(inner) = m {
+                            walk(inner, &here, out);
+                        }
+                    }
+                }
+                _ => {}
+            }
+        }
+    }
+    let mut out = Out::new();
+    for (_, i) in &r.idents {
+        match i {
+            Ident::Map(es) => walk(es, "", &mut out),
+            Ident::Seq(s) => s.iter().for_each(|es| walk(es, "", &mut out)),
+        }
+    }
+    let mut cf = vec![];
+    r.cond.cast_fields(&mut cf);
+    for f in cf {
+        add_key("", &f, &mut out);
     }
     out
 }
@@ -175,6 +221,7 @@ pub fn run(ctx: &Ctx) -> i32 {
             rep.count("rules");
             let (top, nested) = rule_keys(&ast);
             let by_loc = nested_keys_by_location(&ast);
+            let gets = allowed_gets(&ast);
             let leaves = gen::collect_leaves(&ast);
             let docs: Vec<DVal> = (0..ctx.size(5, 8)).map(|_| gen::gen_doc(&mut rng, &leaves)).collect();
             let variants: Vec<(Sw, tau_engine::Rule)> = Sw::ALL16.iter().filter_map(|s| if s.0 == 0 { Some((*s, rule.clone())) } else { eng::optimise(&rule, *s).ok().map(|r| (*s, r)) }).collect();
@@ -231,6 +278,48 @@ pub fn run(ctx: &Ctx) -> i32 {
                         }
                     }
                 }
+                // an addressed field (top level, or inside a top-level object) renamed to a look-alike
+                let renamed_pair: Option<(DVal, DVal)> = {
+                    let mut out = None;
+                    if let DVal::Obj(es) = doc {
+                        let cands: Vec<usize> = (0..es.len()).collect();
+                        if !cands.is_empty() {
+                            let i = cands[rng.below(cands.len())];
+                            let (name, val) = es[i].clone();
+                            let inner = matches!(val, DVal::Obj(ref o) if !o.is_empty()) && rng.chance(50);
+                            if inner {
+                                if let DVal::Obj(o) = &val {
+                                    let j = rng.below(o.len());
+                                    if let Some(alt) = gen::lookalike(&mut rng, &o[j].0) {
+                                        if !o.iter().any(|(k, _)| *k == alt) && !nested.contains(&alt) {
+                                            let mut removed_inner = o.clone();
+                                            let (_, v) = removed_inner.remove(j);
+                                            let mut renamed_inner = removed_inner.clone();
+                                            renamed_inner.push((alt, v));
+                                            let (mut a, mut b) = (doc.clone(), doc.clone());
+                                            a.set(&name, DVal::Obj(removed_inner));
+                                            b.set(&name, DVal::Obj(renamed_inner));
+                                            out = Some((a, b));
+                                        }
+                                    }
+                                }
+                            } else if let Some(alt) = gen::lookalike(&mut rng, &name) {
+                                let addressed = top.iter().any(|t| *t == alt || t.starts_with(&format!("{}.", alt)) || t.starts_with(&format!("{}[", alt)));
+                                if !addressed && !es.iter().any(|(k, _)| *k == alt) {
+                                    let mut a = doc.clone();
+                                    a.remove(&name);
+                                    let mut b = a.clone();
+                                    b.set(&alt, val);
+                                    out = Some((a, b));
+                                }
+                            }
+                        }
+                    }
+                    out
+                };
+                if renamed_pair.is_some() {
+                    rep.count("lookalike_pairs");
+                }
                 for (sw, r) in &variants {
                     let log: FindLog = Arc::new(Mutex::new(vec![]));
                     let rec = to_rec(doc, Some(log.clone()), false);
@@ -260,8 +349,55 @@ pub fn run(ctx: &Ctx) -> i32 {
                             break;
                         }
                     }
+                    // the same through an object that only implements get(): every single step of
+                    // the provided path lookup, at every level, is a name the rule writes there
+                    {
+                        let glog: FindLog = Arc::new(Mutex::new(vec![]));
+                        let gobj = to_getobj(doc, glog.clone());
+                        rep.evaluations += 1;
+                        if let Ok(v) = eng::matches(r, &gobj) {
+                            if v != base {
+                                rep.violation("representation", "c16-get-object", &format!("verdict {} through an object that implements only get(), {} through one with its own find() (switches [{}])", v, base, sw.name()), mon::case(&text, doc, Some(*sw), json!(base), json!(v), json!({})));
+                            }
+                        }
+                        let events = glog.lock().unwrap().clone();
+                        rep.add("get_events", events.len() as u64);
+                        for (at, name) in &events {
+                            if name == "<keys>" {
+                                rep.count("keys_calls");
+                                continue;
+                            }
+                            if !gets.get(at).map(|s| s.contains(name)).unwrap_or(false) {
+                                rep.violation(
+                                    "foreign-key",
+                                    &format!("c16-get:{}", if at.is_empty() { "root" } else { "nested" }),
+                                    &format!("get({:?}) was called on the {} although no key of the rule has that step there (switches [{}])", name, if at.is_empty() { "user's document".to_string() } else { format!("object at {}", at) }, sw.name()),
+                                    mon::case(&text, doc, Some(*sw), json!({"allowed_steps": gets}), json!({"asked": name, "at": at}), json!({})),
+                                );
+                                break;
+                            }
+                        }
+                    }
                     // metamorphic: unaddressed fields cannot change the verdict
                     let base = eng::matches(r, &to_yaml_map(doc)).unwrap_or(base);
+                    // ... in particular a field whose name merely looks like an addressed one
+                    // (another case, `-` for `_`, a blank at the end): the document in which an
+                    // addressed field is *renamed* to a look-alike must behave like the document
+                    // without that field
+                    if let Some((removed, renamed)) = &renamed_pair {
+                        rep.evaluations += 2;
+                        let (a, b) = (eng::matches(r, &to_yaml_map(removed)), eng::matches(r, &to_yaml_map(renamed)));
+                        if let (Ok(a), Ok(b)) = (a, b) {
+                            if a != b {
+                                rep.violation(
+                                    "junk-sensitive",
+                                    &format!("c16-lookalike:{}", sw.name()),
+                                    &format!("verdict changes from {} to {} when a field with a look-alike name is added (switches [{}])", a, b, sw.name()),
+                                    mon::case(&text, renamed, Some(*sw), json!(a), json!(b), json!({"without_junk": removed.to_json_text()})),
+                                );
+                            }
+                        }
+                    }
                     for (name, d2) in [("added", &with_junk), ("altered", &altered)] {
                         rep.evaluations += 1;
                         let m2 = to_yaml_map(d2);
@@ -296,7 +432,7 @@ pub fn run(ctx: &Ctx) -> i32 {
         ctx,
         rep,
         Meta {
-            rule: "generated rules, half of them matrix-forming (sequences of mappings over a few shared fields, also under all()/of()), x all 16 switch sets x rule-aware documents rendered as a recording document whose every Object::find call (root and nested objects) is logged; the log is checked offline against the keys the rule writes (top level: identifier keys with the modifier stripped and cast arguments of the condition; nested objects: the keys written in the nested blocks at that object's location); plus metamorphic runs with unaddressed fields added or altered, including one-character control keys that collide with the matrix's synthetic keys. non-trivial = rule whose optimised form contains a matrix; distinct by (feature tags, number of matrices)".into(),
+            rule: "generated rules, half of them matrix-forming (sequences of mappings over a few shared fields, also under all()/of()), x all 16 switch sets x rule-aware documents rendered as a recording document whose every Object::find call (root and nested objects) is logged; the log is checked offline against the keys the rule writes (top level: identifier keys with the modifier stripped and cast arguments of the condition; nested objects: the keys written in the nested blocks at that object's location); the same through an object that implements only get(), so that every single step of the provided path lookup is logged and checked against the steps of the rule's keys; plus metamorphic runs with unaddressed fields added or altered, with an addressed field renamed to a look-alike name (other case, '-' for '_', trailing blank) against the document without it, including one-character control keys that collide with the matrix's synthetic keys. non-trivial = rule whose optimised form contains a matrix; distinct by (feature tags, number of matrices)".into(),
             exhaustive: false,
             assumptions: vec!["a nested object is identified by its path with array indices removed; blocks at the same location are pooled".into()],
             min_nontrivial: 30,
